@@ -21,7 +21,7 @@ if [ -n "$eq" ]; then
     pk=$(grep -m1 '^package ' $d | awk '{print $2}' | sed 's/_test$//')
     dir=$(grep -rl --include='*.go' -m1 "^package $pk\$" . 2>/dev/null | grep -v "_out" | head -1 | xargs dirname)
     cp $d $dir/
-    if ! go test -count=1 -run 'Equiv\|equiv\|ZZ\|Zz' $dir >/tmp/cr.$$.3 2>&1; then echo "FAIL: equivalence test fails with the refactor"; tail -8 /tmp/cr.$$.3; find . -name 'zz_*' -not -path './_out*' -delete; git checkout -q -- .; exit 1; fi
+    if ! go test -count=1 -run 'Equiv|equiv|ZZ|Zz' $dir >/tmp/cr.$$.3 2>&1; then echo "FAIL: equivalence test fails with the refactor"; tail -8 /tmp/cr.$$.3; find . -name 'zz_*' -not -path './_out*' -delete; git checkout -q -- .; exit 1; fi
   done
 fi
 find . -name 'zz_*' -not -path './_out*' -delete
